@@ -233,6 +233,11 @@ func Compare(a, b CResult) Diff {
 	sort.Strings(onlyA)
 	sort.Strings(onlyB)
 	if len(onlyA) > 0 || len(onlyB) > 0 {
+		// "nameonly": the two results are equal but for the metric name, which one of them dropped
+		// from every series that differs (same label sets otherwise, same points, same values)
+		if nameOnly(ma, mb, onlyA, onlyB) {
+			return Diff{What: "series", Shape: fmt.Sprintf("onlyA=%d onlyB=%d nameonly", len(onlyA), len(onlyB)), Desc: fmt.Sprintf("only in A: %v; only in B: %v", trunc(onlyA), trunc(onlyB))}
+		}
 		return Diff{What: "series", Shape: fmt.Sprintf("onlyA=%d onlyB=%d", len(onlyA), len(onlyB)), Desc: fmt.Sprintf("only in A: %v; only in B: %v", trunc(onlyA), trunc(onlyB))}
 	}
 	keys := make([]string, 0, len(ma))
@@ -259,6 +264,71 @@ func Compare(a, b CResult) Diff {
 		}
 	}
 	return Diff{Equal: true}
+}
+
+func withoutName(ls [][]string) string {
+	var out [][]string
+	for _, p := range ls {
+		if p[0] != "__name__" {
+			out = append(out, p)
+		}
+	}
+	return LsString(out)
+}
+
+func nameOnly(ma, mb map[string]CSeries, onlyA, onlyB []string) bool {
+	if len(onlyA) == 0 || len(onlyB) == 0 {
+		return false
+	}
+	// one side has the names, the other does not; series that differ in the name only may have been
+	// merged into one by the side that dropped it (when they never share a timestamp)
+	for _, named := range []struct {
+		with, without map[string]CSeries
+		w, wo         []string
+	}{{mb, ma, onlyB, onlyA}, {ma, mb, onlyA, onlyB}} {
+		ok := true
+		type pt struct {
+			t int64
+			f float64
+		}
+		stripped := map[string][]pt{}
+		for _, k := range named.w {
+			x := named.with[k]
+			sk := withoutName(x.LS)
+			if sk == k {
+				ok = false
+				break
+			}
+			for i := range x.Pts {
+				stripped[sk] = append(stripped[sk], pt{x.Pts[i].T, x.F[i]})
+			}
+		}
+		if !ok || len(stripped) != len(named.wo) {
+			continue
+		}
+		for _, k := range named.wo {
+			ps, found := stripped[k]
+			y := named.without[k]
+			if !found || len(ps) != len(y.Pts) {
+				ok = false
+				break
+			}
+			sort.Slice(ps, func(i, j int) bool { return ps[i].t < ps[j].t })
+			for i := range ps {
+				if ps[i].t != y.Pts[i].T || !FloatEq(ps[i].f, y.F[i]) || (i > 0 && ps[i].t == ps[i-1].t) {
+					ok = false
+					break
+				}
+			}
+			if !ok {
+				break
+			}
+		}
+		if ok {
+			return true
+		}
+	}
+	return false
 }
 
 func trunc(s []string) []string {
